@@ -52,6 +52,9 @@ type ruleJ struct {
 	// key type of the manager when a client sends this rule ("table" / "txn": the keys must be memcomparable
 	// encodings, pd-server.key-type; "" = raw): part of what makes the rule content acceptable
 	KT string `json:"kt,omitempty"`
+	// isolation_level of the rule (JSON only: part of the content the version label stands for). The tree
+	// accepts any level, also one that is not among the location labels (records of that shape exist)
+	Iso string `json:"iso,omitempty"`
 }
 type groupJ struct {
 	ID       string `json:"id"`
@@ -112,6 +115,7 @@ func (r ruleJ) pd() *placement.Rule {
 	if r.Zone != "" {
 		pr.LabelConstraints = append(pr.LabelConstraints, placement.LabelConstraint{Key: "zone", Op: placement.In, Values: []string{r.Zone}})
 	}
+	pr.IsolationLevel = r.Iso
 	return pr
 }
 func (b bundleJ) pd() placement.GroupBundle {
@@ -992,6 +996,12 @@ func (g *gen) next(malformed bool) opJ {
 			if r.Pct(25) {
 				g.maybeBreak(&ru)
 			}
+			if r.Pct(50) {
+				ru.Iso = []string{"zone", "host", "rack"}[r.Intn(3)]
+			}
+			if r.Pct(40) { // a record another member (another version) left under the rule's own key
+				gg, ii = ru.G, ru.I
+			}
 			o = opJ{Kind: "corrupt", G: gg, I: ii, Rule: &ru}
 		case 2:
 			o = opJ{Kind: "drop", G: gg, I: ii}
@@ -1561,6 +1571,40 @@ func genKeyType(r *rng.R) caseJ {
 	return c
 }
 
+// ---------- records of another member: valid rules written straight into the storage, then a restart ----------
+// (a member of a previous version accepted and persisted them; its shapes include an isolation level that is
+// not among the location labels). The restarted manager must serve them.
+func genOldRecord(r *rng.R) caseJ {
+	c := caseJ{Stream: "oldrecord"}
+	g := &gen{r: r, known: map[[2]string]ruleJ{{"pd", "default"}: {G: "pd", I: "default", Role: "voter", Count: 3}}}
+	c.Ops = append(c.Ops, opJ{Kind: "restart", MaxReplicas: 3})
+	upd := func(n int) {
+		for k := 0; k < n; k++ {
+			o := g.next(false)
+			for !o.isUpdate() {
+				o = g.next(false)
+			}
+			o.FaultN = 0
+			c.Ops = append(c.Ops, o)
+			g.learn(o, true)
+		}
+	}
+	upd(2 + r.Intn(4))
+	for round := 0; round < 1+r.Intn(2); round++ {
+		for k := 0; k < 1+r.Intn(3); k++ {
+			ru := g.rule(g.someGroup())
+			if r.Pct(75) {
+				ru.Iso = []string{"zone", "host", "rack"}[r.Intn(3)]
+			}
+			c.Ops = append(c.Ops, opJ{Kind: "corrupt", G: ru.G, I: ru.I, Rule: &ru})
+		}
+		c.Ops = append(c.Ops, opJ{Kind: "restart", MaxReplicas: 3})
+		upd(1 + r.Intn(2))
+	}
+	c.Ops = append(c.Ops, opJ{Kind: "restart", MaxReplicas: 3})
+	return c
+}
+
 func genCase(r *rng.R) caseJ {
 	malformed := r.Pct(15)
 	c := caseJ{Stream: "valid"}
@@ -1691,6 +1735,7 @@ func main() {
 	n := flag.Int("n", 300, "number of generated cases")
 	out := flag.String("out", ".", "output directory")
 	tier := flag.String("tier", "quick", "")
+	oldrecords := flag.Int("oldrecords", 0, "number of cases in which valid rules are written straight into the storage (another member's records, isolation levels included) before a restart")
 	keytypes := flag.Int("keytypes", 0, "number of cases with pd-server.key-type table / txn (rule keys are memcomparable encodings of 3..17 raw bytes)")
 	handovers := flag.Int("handovers", 6, "number of leadership hand-over cases on a real pd server (RaftCluster Stop/Start, another member's updates in between)")
 	large := flag.Int("large", 3, "number of large-index runs (1500..3500 rules, brute-force oracle on the Go side)")
@@ -1704,7 +1749,7 @@ func main() {
 	log.ReplaceGlobals(zap.NewNop(), nil)
 
 	R := res.New("C13", *seed, *tier)
-	R.Rule = "streams: keytype (-keytypes: the manager is in key type table / txn as the HTTP API sets it, rule keys are memcomparable encodings of 3..17 raw bytes, 8% raw keys that must be refused), bigload (restart after > 100 / > 200 rules and > 100 groups whose ids form strict-prefix chains, on the memory kv and on PD's etcd kv.Base), handover (a real pd server: this member's RaftCluster is stopped, another member's RuleManager accepts updates on the same storage, the RaftCluster is started again on the same object), overlap (update A parked inside its first storage write while update B is issued: B must wait, the outcome is A then B), faultsweep (a storage failure at EACH write of a multi-write update, before/after, then the retry), and random histories of 6..20 operations (SetRule 30%, DeleteRule 12%, SetRules 6%, Batch 10% incl. delete-by-prefix, SetRuleGroup 13%, " +
+	R.Rule = "streams: oldrecord (-oldrecords: valid rules, most with an isolation level, written straight into the storage under their own key as another member's records, then a restart: they must be served), keytype (-keytypes: the manager is in key type table / txn as the HTTP API sets it, rule keys are memcomparable encodings of 3..17 raw bytes, 8% raw keys that must be refused), bigload (restart after > 100 / > 200 rules and > 100 groups whose ids form strict-prefix chains, on the memory kv and on PD's etcd kv.Base), handover (a real pd server: this member's RaftCluster is stopped, another member's RuleManager accepts updates on the same storage, the RaftCluster is started again on the same object), overlap (update A parked inside its first storage write while update B is issued: B must wait, the outcome is A then B), faultsweep (a storage failure at EACH write of a multi-write update, before/after, then the retry), and random histories of 6..20 operations (SetRule 30%, DeleteRule 12%, SetRules 6%, Batch 10% incl. delete-by-prefix, SetRuleGroup 13%, " +
 		"DeleteRuleGroup 5%, SetGroupBundle 8%, SetAllGroupBundles 4%, DeleteGroupBundle 4%, restart 3%, foreign storage writes 5% in the " +
 		"malformed stream = 15% of the cases) over 4 groups x 5 rule ids, key ranges from the pool {'',10,20,2010,30,40,50} (whole space 50%, " +
 		"unbounded 25%, bounded 25%), 8% invalid rule contents, a storage fault at write 1..3 (before/after) on 14% of the updates, retried " +
@@ -1782,6 +1827,9 @@ func main() {
 		}
 		for k := 0; k < *handovers; k++ {
 			emit(genHandover(master.Fork(uint64(6000000+k))), nil)
+		}
+		for k := 0; k < *oldrecords; k++ {
+			emit(genOldRecord(master.Fork(uint64(8000000+k))), nil)
 		}
 		for k := 0; k < *keytypes; k++ {
 			emit(genKeyType(master.Fork(uint64(7000000+k))), nil)
